@@ -462,7 +462,11 @@ func (g *gen) inlineContent() string {
 }
 
 func (g *gen) block(depth int) string {
-	switch k := g.r.Intn(14); {
+	k := g.r.Intn(14)
+	if k == 11 && depth > 0 {
+		k = 4 // nested multi-column boxes hang the layout (reported under C01)
+	}
+	switch {
 	case k <= 2:
 		lvl := g.r.Range(1, 6)
 		g.feat("heading")
